@@ -550,3 +550,27 @@ RULE_ADDENDA = {
 }
 for _k, _t in RULE_ADDENDA.items():
     PROPS[_k]["rule"] += " " + _t
+
+
+# Additions of rounds 4 and 5 (DESIGN.md section 9)
+RULE_ADDENDA_2 = {
+    "C01": "Rounds 4-5: payloads in query, opaque part, fragment and userinfo of addresses; string members given as JSON-LD lists; UI sessions open the first links of hostile bodies with a slow hook while the terminal width sweeps through the length of the status line.",
+    "C02": "Rounds 4-5: look-alike authorities (the simulator's ports are written with 3s and 4s; 127.0.0.{3,4,33} vs {34,43,44}); relative and scheme-relative references through the victim's open redirect; comment sections outsourced to the attacker's host; forged copies followed by >1 MB of padding (27 constructions in all).",
+    "C03": "Rounds 4-5: header lines longer than 4 KB / 8 KB whose value carries header-looking text at the buffer boundary; Location lines of 4-4.3 KB; near-miss media types (tolerated type + one more token character + suffix); documents of about 4 KB, 64 KB and 1 MB; every web is fetched once more eight at a time.",
+    "C04": "Rounds 4-5: the simulator keeps one TLS ticket key and records session resumption (no connection may resume an earlier one).",
+    "C05": "Rounds 4-5: part 0 with 26 framing-header variants on complete responses; a peer that completes the handshake and never reads (small and 16 MB requests); silence for 30/60/85 % of the timeout followed by an empty polite close.",
+    "C06": "Round 5: link alternatives with dimensions 0, 1, 2^16, 2^32, 2^53, 2^64.",
+    "C07": "Rounds 4-5: typed numbers with leading zeros and numbers congruent to a link number modulo 2^32/2^63/2^64; posts with 9-14 links; every sixth session is a long excursion (about 100 history pages); at the end of every session all history pages are compared with the model position by position.",
+    "C08": "Rounds 4-5: every third frame is held for 150 us inside the output callback; worlds reference objects through redirecting aliases and relative references and mix the four markups.",
+    "C09": "Rounds 4-5: stray replies whose parent is the case twin of the viewed post; author fields pointing at activities (an author entry must be an actor or an error item); homonym actors reached through relative references.",
+    "C10": "Rounds 4-5: successors written as {id} / {id,type} objects; totalItems zero/absent/small/string/negative; escaped cursors in page paths.",
+    "C11": "Round 4: sources of 70-270 items with requests of 33..257.",
+    "C12": "Round 4: attachment lists with one entry that is no link (nothing of the list is numbered or may be opened).",
+    "C14": "Round 4: blanks just inside (nested) styled inline elements.",
+    "C15": "Rounds 4-5: widths congruent modulo 2^8/2^16 (documents without pre/hr); each text is also rendered through object.GetMarkup under several media types in one process and compared with fresh renderers; long words with emoji, CJK and combining characters.",
+    "C16": "Round 5: long densely styled bodies (rows of several KB on wide terminals).",
+    "C19": "Rounds 4-5: the empty colour string weighted; nan/inf and other float spellings; integers around 2^16, 2^31, 2^32, 2^63 and 2^63 ns in seconds; the values in force of an accepted configuration must be usable (timeout and preload not negative, cache size positive, hook not empty).",
+    "C20": "Rounds 4-5: a hook program whose path contains blanks; media types with a comma after the subtype; the media type expected for attachments comes from their own JSON; argv[0] compared by base name.",
+}
+for _k, _t in RULE_ADDENDA_2.items():
+    PROPS[_k]["rule"] += " " + _t
